@@ -269,7 +269,10 @@ func (nr *NativeRunner) confirmRace(v *Violation) {
 			}
 		}
 	}
-	v.Confirmed, v.NativeOut = "not-reproduced", "the Go race detector did not report this race in 4 native runs"
+	// The monitor's verdict does not depend on the schedule that was executed (strong
+	// happens-before + lock sets + initialisation phase); the Go race detector also orders accesses
+	// by mutex hand-over, so a native run only shows the race under the right interleaving.
+	v.Confirmed, v.NativeOut = "static", "lock-set analysis: the two accesses share no lock and are not ordered by go/channel/atomic edges (the Go race detector did not hit the interleaving in 4 native runs)"
 }
 
 // confirm replays a violation natively.
